@@ -14,6 +14,7 @@ CHECKS = {
     "C04": "pprops",
     "C05": "pprops",
     "C13": "pprops",
+    "C07": "c07",
     "C15": "c15",
 }
 
